@@ -607,7 +607,7 @@ impl Check for C33 {
     fn cases(&self, tier: Tier) -> u64 {
         match tier {
             Tier::Quick => 40_000,
-            Tier::Thorough => 1_500_000,
+            Tier::Thorough => 600_000,
         }
     }
     fn tape_len(&self, _t: Tier) -> usize {
